@@ -1243,6 +1243,10 @@ def register(M):
             dt, unit = vv.dtype, vv.unit
             if fname in ('mean', 'std', 'median') and dt in ('i8', 'u1', 'b1'):
                 dt = 'f8'
+            if fname in ('mean', 'median') and dt in ('m8', 'M8') and unit in UNIT_SECONDS:
+                # library fact: the mean of timedelta64 values is an integer count of the array's unit (truncated toward zero)
+                us = UNIT_SECONDS[unit]
+                d = X.scale(trunc_expr(X.scale(d, Fr(1) / us), 'm8'), us)
             return Sc(d, dt, unit)
         return f
 
@@ -1320,17 +1324,29 @@ def register(M):
             if len(ln) != 1 or (sm is not None and any(v.sel_mask is None for v in vs)):
                 raise AbsRaise(ExcVal('ValueError', ('operands could not be broadcast together',)), n)
             out = []
+            int_first = X.FALSE
             for i in range(ln.pop()):
                 es = [v.el(i) for v in vs]
                 # the function is applied to the underlying data; the result is masked where an argument is
+                it.last_return_chain = None
                 res = it.call(f, [Sc(e.d, v.dtype, v.unit) for e, v in zip(es, vs)], {}, n)
+                if i == 0:
+                    # library fact: without otypes, np.vectorize takes the output dtype from the result of the FIRST call;
+                    # a Python int there makes every output an integer (later float results are truncated)
+                    chain = it.last_return_chain or [(X.TRUE, res)]
+                    for g, v0 in reversed(chain):
+                        isint = X.TRUE if type(v0) in (int, bool) else X.FALSE
+                        int_first = isint if g == X.TRUE else X.f_or(X.f_and(g, isint), X.f_and(X.f_not(g), int_first))
                 o = as_operand(res)
                 if o is None:
                     raise AnalysisError('vectorized function result not modelled', n)
                 mm = o[2]
                 for e in es:
                     mm = m_or(mm, e.m)
-                out.append(El(o[1], mm))
+                d = o[1]
+                if int_first != X.FALSE and i > 0:
+                    d = trunc_expr(num_of_el(d), 'f8') if int_first == X.TRUE else X.ite(int_first, trunc_expr(num_of_el(d), 'f8'), d)
+                out.append(El(d, mm))
             kind = 'ma' if any(v.kind == 'ma' for v in vs) else 'nd'
             res = Vec.fresh(out, kind=kind, dtype='f8')
             res.sel_mask = sm
